@@ -1,11 +1,67 @@
-//! C03: the on-disk invariant, evaluated on every image a sink fully accepted.
+//! C03: the on-disk invariant, evaluated on every image a sink fully accepted
+//! (worlds A, C and E), by the strict third-party reader.
 
 use crate::runner::Violation;
-use pdfmodel::MDoc;
+use pdfmodel::strict::{read_strict, StrictOpts};
+use pdfmodel::{MDoc, MObj};
 use simcore::Ctx;
+
+fn last_startxref(img: &[u8]) -> Option<usize> {
+    let sx = (0..img.len().saturating_sub(8)).rev().find(|&i| &img[i..i + 9] == b"startxref")?;
+    let mut v = 0usize;
+    let mut any = false;
+    for &c in img[sx + 9..].iter().skip_while(|c| c.is_ascii_whitespace()) {
+        if c.is_ascii_digit() {
+            v = v * 10 + (c - b'0') as usize;
+            any = true;
+        } else {
+            break;
+        }
+    }
+    any.then_some(v)
+}
+
+fn class_of(err: &str) -> &'static str {
+    if err.contains("xref entry") || err.contains("cross-reference entry") || err.contains("object header") {
+        "strict:xref-entry-or-offset"
+    } else if err.contains("Length") {
+        "strict:stream-length"
+    } else if err.contains("startxref") || err.contains("%%EOF") {
+        "strict:startxref"
+    } else if err.contains("Size") {
+        "strict:size"
+    } else if err.contains("xref stream") || err.contains("cross-reference stream") {
+        "strict:xref-stream"
+    } else if err.contains("belong to no object") {
+        "strict:unaccounted-bytes"
+    } else {
+        "strict:rejects"
+    }
+}
 
 /// `prev`: for incremental saves, the image the new one must extend.
 pub fn check_image(ctx: &Ctx, img: &[u8], model: &MDoc, prev: Option<&[u8]>) -> Result<(), Violation> {
-    let _ = (ctx, img, model, prev);
+    ctx.count("c03-images-checked");
+    let opts = StrictOpts { trusted_prefix: prev.map_or(0, |p| p.len()), allow_leading_junk: false };
+    let sd = read_strict(img, &opts).map_err(|e| Violation::new(class_of(&e), format!("strict reader rejects the saved file: {e}")))?;
+    pdfmodel::same_doc(model, &sd.doc, &|_, _: &MObj| false)
+        .map_err(|(c, e)| Violation::new(format!("strict:{c}"), format!("strict reader recovers a different document: {e}")))?;
+    if let Some(p) = prev {
+        ctx.count("c03-incremental-images-checked");
+        if !img.starts_with(p) {
+            return Err(Violation::new("prefix-modified", "incremental save does not start with the previously loaded bytes"));
+        }
+        let want = last_startxref(p);
+        let got = pdfmodel::dict_get(&sd.trailers[0], b"Prev").and_then(|o| if let MObj::Int(i) = o { Some(*i as usize) } else { None });
+        if want.is_none() || want != got {
+            return Err(Violation::new(
+                "strict:prev-link",
+                format!("new cross-reference section has Prev {:?}, the previous revision's startxref value is {:?}", got, want),
+            ));
+        }
+        if sd.section_offsets.get(1).copied() != want {
+            return Err(Violation::new("strict:prev-link", "Prev chain does not continue with the previous revision's section"));
+        }
+    }
     Ok(())
 }
